@@ -17,7 +17,7 @@
 (* (e.push = 1) or replaces the top by it.  A "reset" starts a new root.   *)
 (* A "panic" event has no action here: the trace is rejected at that line. *)
 (***************************************************************************)
-EXTENDS ArimaaRules, Diagram, TLC, Json, IOUtils
+EXTENDS ArimaaRules, Diagram, TLC, Json, IOUtils, SequencesExt
 
 StdComplement == <<8, 2, 2, 2, 1, 1>>
 
@@ -45,7 +45,6 @@ SetOf(q) == {q[k] : k \in 1..Len(q)}
 NoDup(q) == Cardinality(SetOf(q)) = Len(q)
 Rev(q) == [k \in 1..Len(q) |-> q[Len(q) - k + 1]]
 TotalMaterial(b) == Cardinality({i \in Sq : b[i] # 0})
-Last(q) == q[Len(q)]
 
 ---------------------------------------------------------------------------
 (* The state adopted from an event.  pre is the parent state (or the       *)
@@ -218,7 +217,26 @@ C17_State(e, cs) ==
                \o ToString(e.c17), e.c17 = <<>>)
   /\ CountIf(22, e.c17n = 1)
 
+\* X01 - beyond the listed properties (DESIGN.md section 9): the ORDER of the rule-only list, as the
+\* implementation happens to produce it: push starts, then pull completions not yet listed, then own
+\* steps - each group by direction (n, e, s, w) and, within a direction, by ascending square - then
+\* the pass; with a pending push, the completions by direction.  No property demands this order (C06
+\* only relates the two lists to each other); it is recorded so that an ordering change is visible.
+Asc(S) == SetToSortSeq(S, LAMBDA x, y : x < y)
+ByDir(A) == LET part(d) == LET q == Asc({a[1] : a \in {x \in A : x[2] = d}}) IN [k \in 1..Len(q) |-> <<q[k], d>>]
+            IN part(1) \o part(2) \o part(3) \o part(4)
+ImplOrder(b, s, st, pp) ==
+  IF pp[1] = 2 THEN ByDir(PushCompletions(b, s, pp))
+  ELSE LET ps == IF st < 3 THEN PushStarts(b, s) ELSE {}
+           pl == Pulls(b, s, pp) \ ps
+       IN ByDir(ps) \o ByDir(pl) \o ByDir(OwnSteps(b, s) \ (ps \cup pl))
+            \o (IF CanPassRule(st, pp) THEN <<PassAct>> ELSE <<>>)
+X01_State(e, cs) ==
+  e.ph = 1 => Chk("X01", "order of the rule-only list differs from the recorded implementation order",
+                  e.norep = ImplOrder(e.b, e.s, e.st, e.pp))
+
 StateConjuncts(e, cs) ==
+  /\ (PROP = "X01" => X01_State(e, cs))
   /\ (Enforced("C17") => C17_State(e, cs))
   /\ (Enforced("C01") => C01_State(e, cs))
   /\ (Enforced("C04") => C04_State(e, cs))
